@@ -1,66 +1,437 @@
 // Driver for the Wallet family (C37, C38).
+//
+// The wallet package keeps process-wide state (the reflective dispatch table wcom.QueryData
+// points at the most recently created wallet, the base policy keeps one wallet handle), so a
+// process runs ONE wallet at a time. "replay --par N" therefore fans out to N child
+// processes (behaviours partitioned by hash, so duplicates meet in one child) and merges
+// their summaries; "record" with opt procs=N does the same for recordings.
 package main
 
 import (
+	"bufio"
+	"crypto/sha256"
+	"encoding/json"
+	"flag"
 	"fmt"
 	"os"
-	"time"
+	"os/exec"
+	"sort"
+	"strings"
+	"sync"
+	"sync/atomic"
 
-	"github.com/33cn/chain33/wallet"
-	"github.com/33cn/chain33/wallet/bipwallet"
 	"verif/harness/core"
 )
 
-func probe(env *core.Env, args []string) int {
-	t0 := time.Now()
-	n, err := newNode("secp256k1")
+// drv dispatches on the kind of behaviour: WalletEnc histories (first label Genesis), the
+// round-trip table (RoundTrip), gated lock schedules (Start/Step/End/Timer).
+type drv struct {
+	env  *core.Env
+	enc  *encDrv
+	lock *lockDrv
+	mode string
+}
+
+func (d *drv) Reset(env *core.Env, b *core.Behaviour) error {
+	d.env = env
+	d.mode = ""
+	if len(b.Steps) == 0 {
+		return fmt.Errorf("empty behaviour")
+	}
+	switch b.Steps[0].Op() {
+	case "Genesis":
+		d.mode = "enc"
+		d.enc = &encDrv{}
+		return d.enc.reset(env, b)
+	case "RoundTrip":
+		d.mode = "rt"
+		d.enc = &encDrv{}
+		return d.enc.reset(env, b)
+	default:
+		d.mode = "lock"
+		d.lock = &lockDrv{}
+		return d.lock.reset(env, b)
+	}
+}
+
+func (d *drv) Apply(s core.Step) (any, any, error) {
+	switch d.mode {
+	case "enc":
+		return d.enc.apply(s)
+	case "rt":
+		return d.enc.roundTrip(s)
+	}
+	return d.lock.apply(s)
+}
+
+func (d *drv) Close() {
+	if d.enc != nil {
+		d.enc.close()
+		d.enc = nil
+	}
+	if d.lock != nil {
+		d.lock.close()
+		d.lock = nil
+	}
+}
+
+// NonTrivial: DESIGN §4 table.
+//
+//	C37: a failed password change, a legacy-format blob (legacy origin or injected account), or a
+//	     password longer than 32 bytes; round-trip rows: legacy format or a password of >= 32 bytes
+//	C38: a password change parked at a gate while another label (observer, lock, timer, blocked
+//	     secret request) is executed, i.e. an observer call overlapping a state-changing request
+func (d *drv) NonTrivial(env *core.Env, b *core.Behaviour) bool {
+	if len(b.Steps) == 0 {
+		return false
+	}
+	switch b.Steps[0].Op() {
+	case "Genesis":
+		for _, s := range b.Steps {
+			switch {
+			case s.Op() == "Genesis" && s.Str("origin") == "legacy":
+				return true
+			case s.Op() == "Inject":
+				return true
+			case s.Op() == "SetPasswd" && s.Str("ret") == "fail":
+				return true
+			}
+		}
+		return false
+	case "RoundTrip":
+		s := b.Steps[0]
+		return s.Str("fmt") == "legacy" || s.Str("pcls") == "b32" || s.Str("pcls") == "b33" || s.Str("pcls") == "long"
+	}
+	in := false
+	for _, s := range b.Steps {
+		if s.Op() == "Step" && s.Str("kind") == "SetPasswd" {
+			switch s.Str("at") {
+			case "run":
+				in = true
+				continue
+			case "sp3":
+				in = false
+			}
+		}
+		if in && (s.Op() == "Timer" || s.Op() == "Start" || (s.Op() == "Step" && s.Str("kind") != "SetPasswd") ||
+			(s.Op() == "Step" && s.Str("at") == "sp2")) {
+			return true
+		}
+	}
+	return false
+}
+
+// Signature: narrow class of a disagreement.
+func (d *drv) Signature(b *core.Behaviour, idx int, field string, exp, obs any) string {
+	if idx < 0 || idx >= len(b.Steps) {
+		return ""
+	}
+	s := b.Steps[idx]
+	switch b.Steps[0].Op() {
+	case "Genesis":
+		origin, cls := b.Steps[0].Str("origin"), b.Steps[0].Str("cls")
+		detail := ""
+		switch s.Op() {
+		case "SetPasswd":
+			detail = "old=" + s.Str("old") + ",new=" + s.Str("new")
+		case "Unlock":
+			detail = "pw=" + s.Str("pw")
+		}
+		return fmt.Sprintf("C37|%s(%s)|origin=%s/%s|%s|%s", s.Op(), detail, origin, cls, field, diffClass(exp, obs))
+	case "RoundTrip":
+		o := fmt.Sprint(obs)
+		if i := strings.Index(o, ":"); i > 0 {
+			o = o[:i]
+		}
+		return fmt.Sprintf("C37|RoundTrip|pcls=%s|kind=%s|fmt=%s|got=%s", s.Str("pcls"), s.Str("kind"), s.Str("fmt"), o)
+	}
+	// lock schedules: where is the password change, what was done, what differs
+	sp := "none"
+	for i := 0; i <= idx; i++ {
+		t := b.Steps[i]
+		if t.Op() == "Step" && t.Str("kind") == "SetPasswd" {
+			switch t.Str("at") {
+			case "run":
+				sp = "loaded"
+			case "sp2":
+				sp = "past-unlock-point"
+			case "sp3":
+				sp = "returned"
+			}
+		}
+	}
+	what := s.Op()
+	if s.Op() == "Step" || s.Op() == "End" {
+		what += ":" + s.Str("kind")
+		if s.Op() == "Step" {
+			what += "@" + s.Str("at")
+		}
+	}
+	return fmt.Sprintf("C38|%s|setpasswd=%s|%s|%s", what, sp, field, diffClass(exp, obs))
+}
+
+func diffClass(exp, obs any) string {
+	em, ok1 := exp.(map[string]any)
+	om, ok2 := obs.(map[string]any)
+	if ok1 && ok2 {
+		var ks []string
+		for k, v := range em {
+			if !core.Match(v, om[k]) {
+				ks = append(ks, fmt.Sprintf("%s:exp=%s,got=%s", k, clip(core.J(v)), clip(core.J(om[k]))))
+			}
+		}
+		sort.Strings(ks)
+		return strings.Join(ks, ";")
+	}
+	return "exp=" + clip(core.J(exp)) + ",got=" + clip(core.J(obs))
+}
+
+func clip(s string) string {
+	if len(s) > 48 {
+		return s[:48]
+	}
+	return s
+}
+
+// ---------------------------------------------------------------------------------
+
+func bhash(b *core.Behaviour) uint32 {
+	h := sha256.New()
+	for _, s := range b.Steps {
+		c := core.Step{}
+		for k, v := range s {
+			if k != "ret" && k != "chk" {
+				c[k] = v
+			}
+		}
+		h.Write([]byte(core.J(c)))
+	}
+	x := h.Sum(nil)
+	return uint32(x[0])<<24 | uint32(x[1])<<16 | uint32(x[2])<<8 | uint32(x[3])
+}
+
+func writeJSON(path string, v any) {
+	b, _ := json.MarshalIndent(v, "", " ")
+	os.WriteFile(path, b, 0o644)
+}
+
+// replayParent splits the behaviour file over par children.
+func replayParent(args []string) int {
+	fs := flag.NewFlagSet("replay", flag.ExitOnError)
+	in := fs.String("in", "", "")
+	out := fs.String("out", "", "")
+	par := fs.Int("par", 1, "")
+	fs.String("replays", "replays", "")
+	fs.String("prop", "", "")
+	fs.String("tier", "quick", "")
+	fs.Int64("seed", 1, "")
+	fs.String("opt", "", "")
+	fs.Int("max-replays", 3, "")
+	fs.Parse(args)
+	bs, err := core.ReadBehaviours(*in)
+	if err != nil {
+		fmt.Fprintln(os.Stderr, "read:", err)
+		return 2
+	}
+	n := *par
+	if n > len(bs) {
+		n = len(bs)
+	}
+	if n < 1 {
+		n = 1
+	}
+	parts := make([][]*core.Behaviour, n)
+	for _, b := range bs {
+		i := int(bhash(b) % uint32(n))
+		parts[i] = append(parts[i], b)
+	}
+	sums := make([]*core.Summary, n)
+	errs := make([]string, n)
+	var wg sync.WaitGroup
+	for i := 0; i < n; i++ {
+		if len(parts[i]) == 0 {
+			continue
+		}
+		wg.Add(1)
+		go func(i int) {
+			defer wg.Done()
+			pin := fmt.Sprintf("%s.part%d", *in, i)
+			pout := fmt.Sprintf("%s.part%d", *out, i)
+			f, _ := os.Create(pin)
+			w := bufio.NewWriter(f)
+			for _, b := range parts[i] {
+				j, _ := json.Marshal(b)
+				w.Write(j)
+				w.WriteByte('\n')
+			}
+			w.Flush()
+			f.Close()
+			cargs := []string{"replay-child"}
+			skip := false
+			for _, a := range args {
+				if skip {
+					skip = false
+					continue
+				}
+				if a == "--in" || a == "-in" || a == "--out" || a == "-out" || a == "--par" || a == "-par" {
+					skip = true
+					continue
+				}
+				cargs = append(cargs, a)
+			}
+			cargs = append(cargs, "--in", pin, "--out", pout, "--par", "1")
+			cmd := exec.Command(os.Args[0], cargs...)
+			cmd.Stderr = os.Stderr
+			o, err := cmd.Output()
+			defer os.Remove(pin)
+			defer os.Remove(pout)
+			raw, rerr := os.ReadFile(pout)
+			if rerr != nil {
+				errs[i] = fmt.Sprintf("child %d died: %v %s", i, err, clipTail(string(o)))
+				return
+			}
+			var s core.Summary
+			if jerr := json.Unmarshal(raw, &s); jerr != nil {
+				errs[i] = fmt.Sprintf("child %d summary: %v", i, jerr)
+				return
+			}
+			sums[i] = &s
+		}(i)
+	}
+	wg.Wait()
+	tot := &core.Summary{Counters: map[string]int{}}
+	for i, s := range sums {
+		if errs[i] != "" {
+			tot.Errors = append(tot.Errors, errs[i])
+		}
+		if s == nil {
+			continue
+		}
+		tot.Behaviours += s.Behaviours
+		tot.Steps += s.Steps
+		tot.Compared += s.Compared
+		tot.NonTrivial += s.NonTrivial
+		tot.Distinct += s.Distinct
+		tot.Mismatches = append(tot.Mismatches, s.Mismatches...)
+		for _, x := range s.Samples {
+			if len(tot.Samples) < 3 {
+				tot.Samples = append(tot.Samples, x)
+			}
+		}
+		for k, v := range s.Counters {
+			tot.Counters[k] += v
+		}
+		tot.Errors = append(tot.Errors, s.Errors...)
+		tot.Notes = append(tot.Notes, s.Notes...)
+	}
+	sort.Slice(tot.Mismatches, func(i, j int) bool { return tot.Mismatches[i].Signature < tot.Mismatches[j].Signature })
+	writeJSON(*out, tot)
+	if len(tot.Errors) > 0 {
+		return 2
+	}
+	return 0
+}
+
+func clipTail(s string) string {
+	if len(s) > 600 {
+		return s[len(s)-600:]
+	}
+	return s
+}
+
+func replayChild(args []string) int {
+	fs := flag.NewFlagSet("replay-child", flag.ExitOnError)
+	in := fs.String("in", "", "")
+	out := fs.String("out", "", "")
+	fs.Int("par", 1, "")
+	replays := fs.String("replays", "replays", "")
+	prop := fs.String("prop", "", "")
+	tier := fs.String("tier", "quick", "")
+	seed := fs.Int64("seed", 1, "")
+	opts := fs.String("opt", "", "")
+	maxReplays := fs.Int("max-replays", 3, "")
+	fs.Parse(args)
+	env := &core.Env{Prop: *prop, Seed: *seed, Tier: *tier, Opts: parseOpts(*opts)}
+	bs, err := core.ReadBehaviours(*in)
+	if err != nil {
+		fmt.Fprintln(os.Stderr, "read:", err)
+		return 2
+	}
+	sum := core.Replay(env, "Wallet", func() core.Driver { return &drv{} }, bs, 1, *replays, *maxReplays)
+	if sum.Counters == nil {
+		sum.Counters = map[string]int{}
+	}
+	sum.Counters["inconclusive_slow_machine"] = int(atomic.LoadInt64(&inconclusive))
+	writeJSON(*out, sum)
+	if len(sum.Errors) > 0 {
+		return 2
+	}
+	return 0
+}
+
+func parseOpts(list string) map[string]string {
+	m := map[string]string{}
+	for _, kv := range strings.Split(list, ",") {
+		if kv == "" {
+			continue
+		}
+		p := strings.SplitN(kv, "=", 2)
+		if len(p) == 2 {
+			m[p[0]] = p[1]
+		} else {
+			m[p[0]] = "1"
+		}
+	}
+	return m
+}
+
+// replayCandidate re-runs a counterexample of the refuted (temporary-unlock) model: the
+// violation is reproduced when the real wallet FOLLOWS it step by step into the violating state.
+func replayCandidate(env *core.Env, args []string) int {
+	raw, err := os.ReadFile(args[0])
 	if err != nil {
 		fmt.Println(err)
 		return 2
 	}
-	defer n.destroy()
-	n.start()
-	fmt.Println("start", time.Since(t0))
-	seed, _ := bipwallet.NewMnemonicString(0, 160)
-	fmt.Println("saveseed", n.saveSeed("abcd1234", seed), time.Since(t0))
-	fmt.Println("locked", n.w.IsWalletLocked())
-	fmt.Println("unlock", n.unlock(true, "abcd1234", 0))
-	key := make([]byte, 32)
-	key[5] = 9
-	addr, err := n.importKey(true, "k1", key)
-	fmt.Println("import", addr, err, time.Since(t0))
-	fmt.Println(n.dump(true, addr))
-	pub, err := n.signWith(true, addr)
-	fmt.Printf("sign %x %v\n", pub, err)
-	fmt.Println("lock", n.lock(true))
-	fmt.Println(n.dump(false, addr))
-	// gate
-	hold := make(chan struct{})
-	at := make(chan string, 4)
-	wallet.VerifSetGate(func(w *wallet.Wallet, p string) {
-		at <- p
-		<-hold
-	})
-	res := make(chan error, 1)
-	go func() { res <- n.setPasswd(true, "wrongpw11", "newpw1234") }()
-	fmt.Println("at", <-at, "locked:", n.w.IsWalletLocked())
-	hold <- struct{}{}
-	fmt.Println("at", <-at, "locked:", n.w.IsWalletLocked())
-	ok, _ := withDeadline(100*time.Millisecond, func() { fmt.Println(n.dump(false, addr)) })
-	fmt.Println("dump returned before deadline:", ok)
-	hold <- struct{}{}
-	fmt.Println("setpasswd:", <-res, "locked:", n.w.IsWalletLocked())
-	wallet.VerifSetGate(nil)
-	t1 := time.Now()
-	n.stop()
-	n.start()
-	fmt.Println("restart", time.Since(t1))
-	fmt.Println("unlock", n.unlock(true, "abcd1234", 0))
-	fmt.Println(n.dump(true, addr))
+	var rf core.ReplayFile
+	if err := json.Unmarshal(raw, &rf); err != nil {
+		fmt.Println(err)
+		return 2
+	}
+	if env.Opts == nil {
+		env.Opts = map[string]string{}
+	}
+	mm, _, _ := core.RunOne(env, &drv{}, rf.Behaviour)
+	switch {
+	case mm == nil && atomic.LoadInt64(&inconclusive) == 0:
+		fmt.Printf("REPLAY the real wallet followed the counterexample into the violating state: %s\n", core.J(rf.Behaviour.Steps[len(rf.Behaviour.Steps)-1]))
+		fmt.Printf("VIOLATION property=%s replay=%s\n", rf.Property, args[0])
+		return 1
+	case mm == nil:
+		fmt.Println("REPLAY inconclusive (machine too slow for the unlock timer)")
+		return 2
+	case mm.Field == "driver" || mm.Field == "reset":
+		fmt.Println("REPLAY driver error:", mm.Error)
+		return 2
+	}
+	fmt.Printf("REPLAY candidate not reproduced: the real wallet left the counterexample at step %d (%s: model %s, code %s)\n",
+		mm.Step, mm.Field, core.J(mm.Expected), core.J(mm.Observed))
 	return 0
 }
 
 func main() {
-	core.Main(&core.Family{Name: "Wallet", NewDriver: nil, Extra: map[string]func(*core.Env, []string) int{"probe": probe}})
-	os.Exit(0)
+	if len(os.Args) >= 2 {
+		switch os.Args[1] {
+		case "replay":
+			os.Exit(replayParent(os.Args[2:]))
+		case "replay-child":
+			os.Exit(replayChild(os.Args[2:]))
+		}
+	}
+	core.Main(&core.Family{
+		Name:      "Wallet",
+		NewDriver: func() core.Driver { return &drv{} },
+		Recorders: map[string]core.Recorder{"default": recordFan},
+		Extra:     map[string]func(*core.Env, []string) int{"replay-candidate": replayCandidate},
+	})
 }
